@@ -106,3 +106,27 @@ PROPS["C19"] = {
         {"pkg": "config", "run": "^TestC19HardforkVersion$", "quick": {"checks": 3000, "shards": 2, "timeout": 240}, "thorough": {"checks": 60000, "shards": 4, "timeout": 1500}},
     ],
 }
+
+PROPS["C09"] = {
+    "title": "Block producer legitimacy: one producer per slot, valid signature, not future",
+    "level": "exploration",
+    "technique": "exhaustive enumeration of millisecond windows + PBT against independent big-integer slot arithmetic; header-mutation PBT against the real DPoS/raft signature, producer-set, slot-owner and future-slot checks",
+    "level_text": ("Part A: every millisecond in windows of +-2 intervals around three consecutive producer-round wrap-arounds, for intervals "
+                   "1/2/3/5 s and 1..100 producers (exhaustive), plus random 62-bit timestamps, compared with an independent big-integer "
+                   "definition (exactly one owner, constant within a slot, +1 mod n at a boundary). Part B: real signed blocks against the real "
+                   "DPoS acceptance path (VerifySign, producer membership, slot owner, future-slot rule) under single-field header mutations, "
+                   "foreign/other-slot signers and timestamp shifts."),
+    "level_note": "The future-slot rule reads the real clock: timestamps within 150 ms of a decision boundary are skipped and counted. SBP (single-node development consensus) has no block signature and is outside the statement. libp2p secp256k1 signatures trusted.",
+    "rule": ("Part A: a case = (interval, producer count, round) window, all non-trivial (each spans 4 boundaries incl. a wrap-around); random cases "
+             "non-trivial when the two instants lie in different slots. Part B: a case = (producer set, signer, timestamp, mutation); non-trivial = "
+             "mutated block that still parses; distinct by the tuple."),
+    "assumptions": ["positive timestamps (>= 1 ms after the epoch)"],
+    "units": [
+        {"pkg": "consensus/impl/dpos/slot", "run": "^TestC09SlotExhaustive$",
+         "quick": {"shards": 8, "timeout": 240, "env": {"VERIF_C09_MAXN": 100}},
+         "thorough": {"shards": 16, "timeout": 900, "env": {"VERIF_C09_MAXN": 100}}},
+        {"pkg": "consensus/impl/dpos/slot", "run": "^TestC09SlotRandom$",
+         "quick": {"checks": 20000, "shards": 2, "timeout": 240},
+         "thorough": {"checks": 400000, "shards": 6, "timeout": 900}},
+    ],
+}
